@@ -11,6 +11,34 @@ fn fin(x: f32) -> Option<f32> {
     }
 }
 
+/// the tilt classes of both classifiers (the project-file reader's Wall::position, without normalisation, and
+/// bemodel's Tilt::from) at the class limits, their f32 neighbours, and the tilts of this model's walls
+fn tilt_classes(m: &Model) -> String {
+    let mut ts: Vec<f32> = vec![];
+    for l in [0.0f32, 60.0, 120.0, 240.0, 300.0, 360.0] {
+        ts.push(l);
+        ts.push(f32::from_bits(l.to_bits() + 1));
+        if l > 0.0 {
+            ts.push(f32::from_bits(l.to_bits() - 1));
+        }
+    }
+    ts.extend([-90.0f32, -180.0, 450.0, 719.5, 90.0, 180.0]);
+    ts.extend(m.walls.iter().take(12).map(|w| w.geometry.tilt).filter(|t| t.is_finite()));
+    let cls = |s: String| match s.as_str() {
+        "TOP" => "TOP",
+        "BOTTOM" => "BOTTOM",
+        _ => "SIDE",
+    };
+    let v: Vec<String> = ts
+        .iter()
+        .map(|&t| {
+            let hw = hulc::bdl::Wall { tilt: t, ..Default::default() };
+            format!("({}, {}, {})", coq::q(t), cls(format!("{:?}", hw.position())), cls(format!("{:?}", Tilt::from(t))))
+        })
+        .collect();
+    format!("[{}]", v.join("; "))
+}
+
 pub fn one_case(m: &Model, origin: &str) -> Option<Case> {
     coq::reset_ids();
     let mt = coq::model(m);
@@ -18,12 +46,13 @@ pub fn one_case(m: &Model, origin: &str) -> Option<Case> {
     let vent_model = crate::guarded(std::panic::AssertUnwindSafe(|| m.global_ventilation_rate())).ok()?;
     let g = &ind.props.global;
     let term = format!(
-        "(mkC11 {}\n {}\n {} {} ({}, {}, {}, {}))",
+        "(mkC11 {}\n {}\n {} {} ({}, {}, {}, {}) {})",
         mt,
         props::eprops(&ind.props),
         coq::optq(&fin(g.global_ventilation_rate)),
         coq::optq(&fin(vent_model)),
-        props::qz(ind.area_ref), props::qz(ind.compactness), props::qz(ind.vol_env_net), props::qz(ind.vol_env_gross)
+        props::qz(ind.area_ref), props::qz(ind.compactness), props::qz(ind.vol_env_net), props::qz(ind.vol_env_gross),
+        tilt_classes(m)
     );
     let outside = m.spaces.iter().filter(|s| !s.inside_tenv).count();
     Some(Case {
